@@ -1005,5 +1005,142 @@ func init() {
 			e.fail("Plugin.PreFilter not found")
 		}
 		fmt.Fprintf(&e.out, "def prefilter_designation_cleared_when : List String := %s\n", lst(preClears))
+		c07FillFacts(e, d, lst)
 	}
+}
+
+// extension 6: devicehandler_gpu.go fillGPUTotalMem - WHICH device's gpu-memory total the two conversions use.
+//   fill_device_lookup      "in-loop:entry-minor" when the range body (directly, not under an if / nested loop) looks a
+//                           device up in a map with an index that mentions <range value>.Minor (or <slice>[<range key>].Minor)
+//   fill_conversion_totals  per call of memoryBytesToRatio / memoryRatioToBytes, in source order: "<callee>:entry-device"
+//                           when the 2nd argument is <that device>[...ResourceGPUMemory], or a local whose ONLY assignment
+//                           is such an expression and sits directly in the range body; otherwise "<callee>:other:<expr>"
+// Local names are free (rename-tolerant); hoisting the device's memory into a per-iteration local is tolerated.
+func c07FillFacts(e *ext, d string, lst func([]string) string) {
+	lookup := "missing"
+	var totals []string
+	fd := e.funcDecl(d, "", "fillGPUTotalMem")
+	if fd == nil {
+		e.fail("fillGPUTotalMem not found")
+	} else {
+		var loop *ast.RangeStmt
+		ast.Inspect(fd.Body, func(n ast.Node) bool {
+			if r, ok := n.(*ast.RangeStmt); ok && loop == nil {
+				loop = r
+			}
+			return loop == nil
+		})
+		if loop == nil {
+			e.fail("fillGPUTotalMem: no range loop")
+		} else {
+			keyName, valName := "", ""
+			if id, ok := loop.Key.(*ast.Ident); ok {
+				keyName = id.Name
+			}
+			if id, ok := loop.Value.(*ast.Ident); ok {
+				valName = id.Name
+			}
+			entryMinor := func(x ast.Expr) bool { // mentions <value>.Minor or <anything>[<key>].Minor
+				found := false
+				ast.Inspect(x, func(n ast.Node) bool {
+					if se, ok := n.(*ast.SelectorExpr); ok && se.Sel.Name == "Minor" {
+						switch b := se.X.(type) {
+						case *ast.Ident:
+							if b.Name == valName && valName != "" && valName != "_" {
+								found = true
+							}
+						case *ast.IndexExpr:
+							if id, ok := b.Index.(*ast.Ident); ok && id.Name == keyName && keyName != "" && keyName != "_" {
+								found = true
+							}
+						}
+					}
+					return true
+				})
+				return found
+			}
+			// the device of the entry: first direct statement `D, ok := M[<entry minor>]` / `D := M[<entry minor>]`
+			dev := ""
+			for _, st := range loop.Body.List {
+				if as, ok := st.(*ast.AssignStmt); ok && len(as.Rhs) == 1 && dev == "" {
+					if ix, ok := as.Rhs[0].(*ast.IndexExpr); ok && entryMinor(ix.Index) {
+						if id, ok := as.Lhs[0].(*ast.Ident); ok {
+							dev = id.Name
+							lookup = "in-loop:entry-minor"
+						}
+					}
+				}
+			}
+			isDevMem := func(x ast.Expr) bool { // D[...ResourceGPUMemory]
+				ix, ok := x.(*ast.IndexExpr)
+				if !ok {
+					return false
+				}
+				id, ok := ix.X.(*ast.Ident)
+				if !ok || id.Name != dev || dev == "" {
+					return false
+				}
+				switch k := ix.Index.(type) {
+				case *ast.SelectorExpr:
+					return k.Sel.Name == "ResourceGPUMemory"
+				case *ast.Ident:
+					return k.Name == "ResourceGPUMemory"
+				}
+				return false
+			}
+			// every assignment to a local in the whole function: name -> (count, the one directly in the range body)
+			assigns := map[string]int{}
+			direct := map[string]ast.Expr{}
+			ast.Inspect(fd.Body, func(n ast.Node) bool {
+				switch v := n.(type) {
+				case *ast.AssignStmt:
+					for _, l := range v.Lhs {
+						if id, ok := l.(*ast.Ident); ok {
+							assigns[id.Name]++
+						}
+					}
+				case *ast.ValueSpec:
+					for _, id := range v.Names {
+						if len(v.Values) > 0 {
+							assigns[id.Name]++
+						}
+					}
+				}
+				return true
+			})
+			for _, st := range loop.Body.List {
+				if as, ok := st.(*ast.AssignStmt); ok && len(as.Lhs) == 1 && len(as.Rhs) == 1 {
+					if id, ok := as.Lhs[0].(*ast.Ident); ok {
+						direct[id.Name] = as.Rhs[0]
+					}
+				}
+			}
+			ast.Inspect(fd.Body, func(n ast.Node) bool {
+				c, ok := n.(*ast.CallExpr)
+				if !ok {
+					return true
+				}
+				id, ok := c.Fun.(*ast.Ident)
+				if !ok || (id.Name != "memoryBytesToRatio" && id.Name != "memoryRatioToBytes") || len(c.Args) != 2 {
+					return true
+				}
+				inLoop := c.Pos() >= loop.Body.Pos() && c.End() <= loop.Body.End()
+				arg := c.Args[1]
+				okDev := inLoop && isDevMem(arg)
+				if v, isID := arg.(*ast.Ident); isID && inLoop && !okDev {
+					if rhs, has := direct[v.Name]; has && assigns[v.Name] == 1 && isDevMem(rhs) {
+						okDev = true
+					}
+				}
+				if okDev {
+					totals = append(totals, id.Name+":entry-device")
+				} else {
+					totals = append(totals, id.Name+":other:"+types.ExprString(arg))
+				}
+				return true
+			})
+		}
+	}
+	fmt.Fprintf(&e.out, "def fill_device_lookup : String := %s\n", leanStr(lookup))
+	fmt.Fprintf(&e.out, "def fill_conversion_totals : List String := %s\n", lst(totals))
 }
